@@ -42,6 +42,38 @@ def tree_fresh(chk, db, rule_id):
             ok = must_pass_after(f, w, lambda x: x.get("id") in rebuild)
             chk.ob(rule_id, f.key, "tree rebuilt after `%s`" % txt(w)[:50], bool(ok), f.loc(w),
                    "" if ok else "a path returns with a changed point set but the old roots/pntr/indx: evaluate, the sparse basis and setHierarchicalCoefficients walk a stale tree")
+    # while nothing is loaded the tree describes the needed points: emptying them (not relabelling them as loaded points) needs a rebuild or a reset of the tree as well
+    from tsg.flow import cond_edges_dominating as _ced
+    from tsg.typestate import must_pass_before as _mpb
+    for f in db.all_functions(["SparseGrids/tsgGridLocalPolynomial.cpp", "SparseGrids/tsgGridLocalPolynomial.hpp"]):
+        if f.cls != LP or f.d.get("const") or f.d.get("isctor") or f.d.get("islambda"):
+            continue
+        mw = list(member_writes(f, into_lambda=False))
+        nw = [w for w, fld, kd in mw if short(fld) == "needed" and kd == "assign" and txt(w).replace(" ", "").endswith("MultiIndexSet()")]
+        relabel = [w for w, fld, kd in mw if short(fld) == "points" and "move(" in txt(w) and "needed" in txt(w)]
+        tree_w = [w for w, fld, kd in mw if short(fld) in ("roots", "pntr", "indx")]
+        rebuild = {c["id"] for c, t in eff.this_calls(f) if t.name.endswith("::buildTree") or any(tt.name.endswith("::buildTree") for _, tt in eff.this_calls(t))}
+        for w in nw:
+            # loaded points are known to exist on this path, or the needed points were just relabelled as loaded: the tree still describes `points`
+            known = any((("points.empty()" in txt(c_) and "!" not in txt(c_).split("points.empty()")[0][-2:] and not tr) or ("!points.empty()" in txt(c_).replace(" ", "") and tr)) for c_, tr in _ced(f, w))
+            if known or any(_mpb(f, w, lambda x, r=r: x is r) for r in relabel):
+                continue
+            pts_w = [x for x, fld, kd in mw if short(fld) == "points"]
+            if pts_w and must_pass_after(f, w, lambda x: any(x is p_ for p_ in pts_w)):
+                continue        # the loaded points are rewritten on every path afterwards: they, not the dropped needed points, decide the tree (first part of the rule)
+            n += 1
+            chk.saw(f)
+            # `if (points.empty()) { reset / rebuild }`: the test itself is the decision, on its false edge the tree describes the loaded points
+            tests = []
+            for a in f.walk(into_lambda=False):
+                if a.get("k") == "IfStmt" and a.get("cond") is not None and a.get("then") is not None and txt(strip(a["cond"])).replace("this->", "") == "points.empty()" and \
+                        any(x.get("id") in rebuild or any(x is t_ for t_ in tree_w) for x in walk(a["then"])):
+                    tests += [a["cond"]] + list(walk(a["cond"]))
+            ok = must_pass_after(f, w, lambda x: x.get("id") in rebuild or any(x is t_ for t_ in tree_w) or any(x is t_ for t_ in tests)) or \
+                any(_mpb(f, w, lambda x, c_=c_: x.get("id") == c_) for c_ in rebuild)
+            chk.ob(rule_id, f.key, "tree rebuilt or reset after `%s` when nothing is loaded" % txt(w)[:40], bool(ok), f.loc(w),
+                   "" if ok else "with no loaded points the tree describes the needed points; they are dropped and roots/pntr/indx keep their size: write() stores a tree that the reader, "
+                   "which sizes it by the points, cannot read back")
     return n
 
 
